@@ -111,17 +111,23 @@ Print Assumptions attempts_project.
 (* The window tracks the launch attempts: driving the property's (window, condition) machine with nothing but the
    conclusions visible on the API objects (a claim turning Registered = a success, a claim deleted by liveness = a
    failure, in the order they appear) reproduces the window and the condition of the real system, for every history of
-   launches, node joins, reconciles, clock advances, pool/class changes, restarts and re-hydrations without API faults. *)
-Theorem window_tracks_attempts : forall ops : list aop, fault_free ops = true ->
+   launches, node joins, reconciles, clock advances, pool/class changes, restarts and re-hydrations, including
+   reconciles whose NodePool status patch or Node patch is rejected (the reconcile is retried). *)
+Theorem window_tracks_attempts : forall ops : list aop, benign ops = true ->
   spec_follow fixed ainit ([], CUnknown) ops = abs (a_sys (arun fixed ops)).
-Proof. exact window_tracks_attempts_l. Qed.
+Proof. exact window_tracks_attempts_benign. Qed.
 Print Assumptions window_tracks_attempts.
 
 (* ... because every attempt is recorded exactly once, with its own outcome, when it concludes *)
-Theorem attempts_recorded_once : forall ops : list aop, fault_free ops = true ->
+Theorem attempts_recorded_once : forall ops : list aop, benign ops = true ->
   Forall (fun c => c_rec c = expected_rec c) (a_claims (arun fixed ops)).
-Proof. exact attempts_recorded_once_eq. Qed.
+Proof. exact attempts_recorded_once_benign. Qed.
 Print Assumptions attempts_recorded_once.
+
+(* histories without any API fault are a special case *)
+Theorem fault_free_is_benign : forall ops : list aop, fault_free ops = true -> benign ops = true.
+Proof. exact fault_free_benign. Qed.
+Print Assumptions fault_free_is_benign.
 
 (* under any API faults a Registered claim has had its success recorded (what 40852abfb repaired) *)
 Theorem registered_implies_recorded : forall ops : list aop,
@@ -157,8 +163,8 @@ Print Assumptions attempts_recorded_once_under_faults_refuted.
 
 (* Non-vacuity: a fault-free history with a success, a timed-out launch and a restart; the window holds both *)
 Example attempts_example :
-  let ops := [ANew true; ANew false; AJoin 0; ARec 0 FNone; ATick 300%Z; ARec 1 FNone; AEnv ECrash; AEnv EHealth;
-              ANew true; AJoin 2; ARec 2 FNone] in
-  fault_free ops = true /\ recs fixed ops = [(true, false, [true]); (false, true, [false]); (true, false, [true])] /\
+  let ops := [ANew true; ANew false; AJoin 0; ARec 0 FNodePatch; ARec 0 FPoolConflict; ARec 0 FNone; ATick 300%Z;
+              ARec 1 FPoolConflict; ARec 1 FNone; AEnv ECrash; AEnv EHealth; ANew true; AJoin 2; ARec 2 FNone] in
+  benign ops = true /\ recs fixed ops = [(true, false, [true]); (false, true, [false]); (true, false, [true])] /\
   abs (a_sys (arun fixed ops)) = ([true; true], CTrue).
 Proof. vm_compute. repeat split; reflexivity. Qed.
